@@ -2,6 +2,7 @@ From Coq Require Import ZArith List Bool.
 From RV Require Import Base.Wire Base.Text Lang.Escape Lang.Sections.
 From RV Require Lang.StmtAst Lang.Transl Lang.Scope Wire.C01_stmtW.
 From RV Require Lang.Headers Lang.FnSelect Lang.EmitScope Lang.Reserved Lang.ExcDecl.
+From RV Require Lang.PyAst Lang.PyAstWire Lang.Infer Lang.InferComp Lang.DeclWire Lang.CompScope.
 Import ListNotations.
 Open Scope Z_scope.
 
@@ -331,6 +332,26 @@ Definition run (v : wv) : wv :=
                 WL (map (fun pf => enc_body (map EmitScope.CUser (fst (fst pf))) (snd (snd pf)) (EmitScope.user_proj st (snd (fst pf))))
                         (combine fns tf)) ]
       | _, _, _, _, _ => wbad
+      end
+  | WL [WI 12; ss] =>
+      (* a sequence of assignments  x = rhs  (Lang/CompScope.v): declarations, recorded types afterwards, guard, the lexical
+         reference, the scope verdict of the block, and the declarations under the popping `finally` *)
+      match un_list (fun p => match p with
+                              | WL [x; r] => match un_text x, DeclWire.dec_rhs r with Some n, Some rr => Some (n, rr) | _, _ => None end
+                              | _ => None end) ss with
+      | Some l =>
+          let enc_ds := fun ds : list (text * Infer.cty) => WL (map (fun d => WL [wtext (fst d); wtext (Infer.cty_text (snd d))]) ds) in
+          let enc_o := fun o : option (list (text * Infer.cty)) => match o with Some ds => WL [WI 1; enc_ds ds] | None => WL [WI 0] end in
+          wok [ match CompScope.run_decls [] [] None CompScope.st_empty l with
+                | Some st => WL [WI 1; enc_ds (CompScope.ds_decls st);
+                                 WL (map (fun d => WL [wtext (fst d); wtext (Infer.label_text (snd d))]) (CompScope.ds_types st))]
+                | None => WL [WI 0]
+                end;
+                wbool (CompScope.pure_run [] [] None [] l);
+                enc_o (CompScope.ref_decls [] [] None [] [] l);
+                wbool (match EmitScope.scan [[]] (CompScope.prog_toks [] l) with Some [_] => true | _ => false end);
+                enc_o (option_map CompScope.ds_decls (CompScope.run_pop [] [] None CompScope.st_empty l)) ]
+      | None => wbad
       end
   | _ => wbad
   end.
